@@ -44,9 +44,10 @@ axiom("X4_hmac_len", [nm, ky, ms], Len(HMAC(nm, ky, ms)) == dsize(nm), patterns=
       note="X4: an HMAC digest has digest_size bytes")
 axiom("X4_hash_len", [nm, ms], Len(HASH(nm, ms)) == dsize(nm), patterns=[HASH(nm, ms)], auto=True,
       note="X4: a hash digest has digest_size bytes")
-axiom("X4_dsize_pos", [nm], dsize(nm) > 0, patterns=[dsize(nm)], auto=True,
-      note="X4: digest_size > 0 for the fixed-output hashes the PRF / counter-mode wrappers are used with "
-           "(the SHAKE functions report digest_size 0 and are handled by the XOF branch)")
+axiom("X4_dsize_pos", [nm], Imp(And(hash_available(nm), nm != z3.StringVal("shake_128"), nm != z3.StringVal("shake_256")),
+                                dsize(nm) > 0), patterns=[dsize(nm)], auto=True,
+      note="X4: digest_size > 0 for every available hash other than the SHAKE functions (which report 0 and are "
+           "handled by the XOF branch of the wrapper)")
 axiom("X4_xof_len", [nm, ms, n], Imp(n >= 0, Len(XOF(nm, ms, n)) == n), patterns=[XOF(nm, ms, n)], auto=True,
       note="X4: SHAKE digest(n) has n bytes")
 
@@ -173,7 +174,7 @@ PRFM = "toolkit/prf/hmac_prf.py:"
 P_RESULT = "P_upto(hash_func_name, key, message, (output_len + dsize(hash_func_name) - 1) // dsize(hash_func_name))[:output_len]"
 contract(PRFM + "_tls_p_hash",
          params=dict(key=TBytes, message=TBytes, output_len=TInt, hash_func_name=TStr), returns=TBytes,
-         requires=["output_len >= 0"],
+         requires=["output_len >= 0", "not hash_available(hash_func_name) or dsize(hash_func_name) > 0"],
          raises={"ValueError": dict(when="not hash_available(hash_func_name)", iff=True)},
          ensures=["result == " + P_RESULT, "len(result) == output_len"],
          lemmas=["P_upto_len"],
@@ -193,7 +194,7 @@ PRFT = TObj(PRF)
 klass("toolkit/prf/abstraction.py:AbstractPRF", fields=dict(output_length=TInt, key_length=TInt, message_length=TInt))
 klass(PRF, fields=dict(output_length=TInt, key_length=TInt, message_length=TInt, hash_func_name=TStr),
       bases=["toolkit/prf/abstraction.py:AbstractPRF"],
-      invariant=["hash_available(self.hash_func_name)", "self.output_length > 0", "self.key_length >= -1",
+      invariant=["hash_available(self.hash_func_name)", "dsize(self.hash_func_name) > 0", "self.output_length > 0", "self.key_length >= -1",
                  "self.message_length >= -1"],
       construct="HmacPRF(output_length={output_length}, key_length={key_length}, message_length={message_length}, "
                 "hash_func_name={hash_func_name})",
@@ -204,6 +205,7 @@ inline("toolkit/prf/abstraction.py:AbstractPRF.__init__")
 contract(PRF + ".__init__",
          params=dict(self=PRFT, output_length=TInt, key_length=TInt, message_length=TInt, hash_func_name=TStr),
          modifies=["self"],
+         requires=["not hash_available(hash_func_name) or dsize(hash_func_name) > 0"],
          raises={"ValueError": dict(when="not hash_available(hash_func_name)", iff=True)},
          ensures=["self.output_length == (output_length if output_length != 0 else dsize(hash_func_name))",
                   "self.key_length == key_length", "self.message_length == message_length",
@@ -233,7 +235,7 @@ def _hash_func_call(E, recv, args, kwargs, fr, node):
 
 
 klass(HW, fields=dict(output_length=TInt, hash_func_name=TStr, hash_func=TAny), bases=["toolkit/hash.py:AbstractHash"],
-      invariant=["self.output_length >= 0"], virtual={"hash_func": _hash_func_call},
+      invariant=["self.output_length >= 0", "hash_available(self.hash_func_name)"], virtual={"hash_func": _hash_func_call},
       construct="HashlibHashVariableOutputLengthWrapper(output_length={output_length}, hash_func_name={hash_func_name})",
       gen=lambda rnd: dict(output_length=rnd.choice([1, 15, 16, 20, 21, 32, 64, 65, 129, 161, 200]),
                            hash_func_name=rnd.choice(["sha1", "sha256", "md5", "sha512", "shake_128", "shake_256"])))
@@ -253,6 +255,7 @@ lemma("ctr_upto_len", [nm, ms, k], Len(ctr_upto(nm, ms, k)) == z3.If(k <= 0, 0, 
       patterns=[ctr_upto(nm, ms, k)], induct=("int", k), inst=[[nm, ms, k - 1]])
 
 contract(HW + "._ctr_expand", params=dict(self=HWT, message=TBytes), returns=TBytes,
+         requires=["dsize(self.hash_func_name) > 0"],
          ensures=["len(result) == self.output_length",
                   "result == ctr_upto(self.hash_func_name, message, "
                   "(self.output_length + dsize(self.hash_func_name) - 1) // dsize(self.hash_func_name))[:self.output_length]"],
@@ -509,7 +512,7 @@ def _gen_dec(rnd):
         ct = bytes(rnd.getrandbits(8) for _ in range(len(ct)))
     elif r < 0.45:
         key = bytes(rnd.getrandbits(8) for _ in range(kl))
-    return dict(self=obj(AES, key_length=kl, cipher_length=rnd.choice([-1, -1, len(ct)]), message_length=-1), key=key, cipher_text=ct)
+    return dict(self=obj(AES, key_length=kl, cipher_length=rnd.choice([-1, -1, len(ct) if len(ct) % 16 == 0 else -1]), message_length=-1), key=key, cipher_text=ct)
 
 
 # Decrypt(k, Encrypt(k, m)) == m, as ghost client code over the two contracts (A3 is thereby proved from X1, X2)
@@ -519,3 +522,28 @@ contract("ghost:aes_roundtrip", params=dict(ske=AEST, key=TBytes, message=TBytes
                    "ske.cipher_length == -1 or ske.cipher_length == 16 + 16 * (len(message) // 16 + 1)"],
          ensures=["result == message"], lemmas=["X2_cbc_inv", "X2_cbc_len"],
          hints=[("pkcs7_len", ["message", "16"]), ("X1_pad_valid", ["message", "16"])], props=["C14", "C01"])
+
+
+# ---- bounded stand-ins (run-time, labelled bounded in evidence; never counted as proved) ----------------------
+def rt_iv_fresh(rnd, tier):
+    """Histories: many encryptions on ONE cipher object -- all ciphertexts and all IVs pairwise distinct.
+    (The per-call fact `IV == the fresh draw of this call` is proved; this covers state carried between calls.)"""
+    from toolkit.symmetric_encryption.aes import AESxCBC
+    n = 700 if tier == "quick" else 20000
+    viol = []
+    cases = 0
+    for kl in (16, 24, 32):
+        ske = AESxCBC(key_length=kl)
+        key = bytes(rnd.getrandbits(8) for _ in range(kl))
+        for m in (b"", b"0123456789abcdef"):
+            seen = {}
+            for i in range(n):
+                c = ske.Encrypt(key, m)
+                cases += 1
+                ivb = c[:16]
+                if ivb in seen:
+                    viol.append({"clause": "two encryptions on one object reuse an IV (calls #%d and #%d)" % (seen[ivb], i),
+                                 "input": {"key_length": kl, "message": m.hex(), "calls": i + 1}})
+                    break
+                seen[ivb] = i
+    return {"cases": cases, "bound": "%d consecutive Encrypt calls per (key length, message) on one object" % n, "violations": viol}
